@@ -292,7 +292,9 @@ func (e *testEnv) monitorC01(ep endpointCase, cr credential, v *respView, real s
 		}
 		emailOK := em == "" || len(o.EmailDomains) == 0
 		for _, d := range o.EmailDomains {
-			if d == "*" || strings.HasSuffix(strings.ToLower(em), "@"+strings.ToLower(strings.TrimPrefix(d, "."))) || (strings.HasPrefix(d, ".") && strings.HasSuffix(strings.ToLower(em), strings.ToLower(d))) {
+			// exact domain: the address ends in "@"+domain; leading-dot rule: a STRICT sub-domain (the apex itself is not covered)
+			le, ld := strings.ToLower(em), strings.ToLower(d)
+			if d == "*" || (!strings.HasPrefix(d, ".") && strings.HasSuffix(le, "@"+ld)) || (strings.HasPrefix(d, ".") && strings.Contains(le, "@") && strings.HasSuffix(le[strings.LastIndex(le, "@")+1:], ld)) {
 				emailOK = true
 			}
 		}
